@@ -150,6 +150,21 @@ static void mode_models() {
                 }
             }
             M.ev("pp_samples_above_5fc", hi); M.ev("pp_samples_below_fc4", lo);
+            if (!longn && !extreme) {
+                // the same request again after a request that agrees in length, gap and harmonic step f_max/f0/(n-1) but is for another
+                // ring (bending radius scaled, frequencies scaled with it): what a model returns depends on its own arguments only
+                // (half of the scale factors are powers of two: both frequencies scale exactly in single precision, the harmonic step is bit-identical)
+                const double k = r.chance(0.5) ? std::ldexp(1.0, (int)r.range(1, 6) * (r.chance(0.5) ? 1 : -1)) : (r.chance(0.5) ? r.uni(0.01, 0.5) : r.uni(2, 60));
+                // (a request of another length in between, so that the other ring's request is not itself "a repetition" of the first)
+                { ParallelPlatesCSR between(n + 1, (frequency_t)f0, (frequency_t)fmax, g); (void)between[0]; }
+                { ParallelPlatesCSR other(n, (frequency_t)(f0 * k), (frequency_t)(fmax * k), g); (void)other[0]; }
+                ParallelPlatesCSR again(n, (frequency_t)f0, (frequency_t)fmax, g);
+                M.ev("pp_requests_repeated_after_a_similar_request");
+                for (size_t i = 0; i < n; i++) { const impedance_t u = zp[i], v = again[i]; if (std::memcmp(&u, &v, sizeof(impedance_t)) == 0) continue;
+                    vh::J d; d.i("n", (long)n).i("index", (long)i).n("re", again[i].real()).n("first_re", zp[i].real()).n("other_ring_scale", k).s("params", ds.str());
+                    M.violation("C16:parallelplates:depends_on_earlier_request", "a parallel-plates request returns other samples when repeated after a similar request for another ring", d.str()); break;
+                }
+            }
             M.ev("model.parallelplates");
             break; }
         default: {  // constant impedance
